@@ -1167,7 +1167,7 @@ fn note_effect(eff: &Effect, pre: &Pre, case: &Case, obs: &mut Obs, stats: &mut 
             if value.w == 128 {
                 obs.class("store-128");
             }
-            if (*addr & !(PAGE - 1)) == (BLOB_ADDR & !(PAGE - 1)) || ((addr + n - 1) & !(PAGE - 1)) == (BLOB_ADDR & !(PAGE - 1)) {
+            if (*addr & !(PAGE - 1)) == (BLOB_ADDR & !(PAGE - 1)) || (addr.wrapping_add(n.max(1) - 1) & !(PAGE - 1)) == (BLOB_ADDR & !(PAGE - 1)) {
                 *blob_page_written = true;
             }
         }
@@ -1272,7 +1272,7 @@ fn main() -> std::process::ExitCode {
         "C07",
         "programs of 1-3 generated IL functions (1-6 blocks, all operation kinds, widths 1-128, both endiannesses, addressed instructions; classes: plain / broken guards / intrinsics / branches to instruction addresses in the same or another function / branch to a tiny amd64 function in executable memory) x initial states with missing scalars and memory holes, stepped up to 6-64 times in lock-step with a reference interpreter (Bv arithmetic, byte-map memory, successor = the edge whose guard is 1), comparing location, every scalar and the touched bytes after each step and fault kinds at the end; non-trivial = at least 3 steps including a load/store wider than 8 bits or a choice among >= 2 out-edges; distinct = (operation kinds executed, access widths, endianness, how the trace ended, generator class)",
         Box::new(|_t: Tier| from_tape(1600, decode)),
-        |t| t.pick(60_000, 3_000_000),
+        |t| t.pick(60_000, 4_000_000),
         check,
     );
     spec.render = render;
@@ -1291,7 +1291,28 @@ fn main() -> std::process::ExitCode {
         ("klass-intrinsics", 0.06),
         ("klass-branches", 0.15),
         ("klass-lift", 0.05),
-        ("nontrivial", 0.25),
+        ("nontrivial", 0.40),
+        ("multiway-choice", 0.30),
+        ("choice-among-3", 0.06),
+        ("load-wider-than-8", 0.18),
+        ("store-wider-than-8", 0.16),
+        ("big-endian-wide-load", 0.08),
+        ("big-endian-wide-store", 0.08),
+        ("store-128", 0.04),
+        ("load-128", 0.025),
+        ("initial-missing-scalar", 0.10),
+        ("fault-undefined-scalar", 0.05),
+        ("fault-unmapped", 0.015),
+        ("fault-div-zero", 0.005),
+        ("fault-intrinsic", 0.012),
+        ("fault-no-edge", 0.06),
+        ("branch-same-function", 0.06),
+        ("branch-other-function", 0.025),
+        ("branch-to-unmapped", 0.02),
+        ("branch-lifts-function", 0.012),
+        ("step-inside-lifted-function", 0.012),
+        ("branch-out-of-lifted-function", 0.006),
+        ("end-max-steps", 0.25),
     ];
     spec.crash_sig = |c: &Case| format!("C07|crash|{}", c.klass);
     engine::main(spec)
